@@ -1,5 +1,6 @@
 import QV.Drive.Util
 import QV.Model.Front
+import QV.Model.Sem
 /-! JSON handlers of C01: `c01.translate` (a whole program, as `ast2ast` leaves it, to the truth
 table of its return bits) and `c01.arith` (one library function on symbolic / constant operands). -/
 namespace QV.Drive.C01
@@ -120,9 +121,26 @@ def arithOp (j : Json) : R Json := do
   pure (Json.mkObj [("n", toJson out.length), ("names", strsJ names),
                     ("table", Json.str (truthTable names out))])
 
+/-- `c01.semw`: the Lean reference semantics `QV.Sem.semProg` of a program on every assignment of its
+argument bits: one string of return bits per row, `null` where `SemW` gives no meaning -/
+def semwOp (j : Json) : R Json := do
+  let args ← (← (← j.getObjVal? "args").getArr?).toList.mapM fun e => do
+    let p ← e.getArr?
+    return (← p[0]!.getStr?, ← parseTy p[1]!)
+  let ret ← parseTy (← j.getObjVal? "ret")
+  let body ← (← (← j.getObjVal? "body").getArr?).toList.mapM parseStmt
+  let argBits := args.flatMap fun (n, t) => t.names n
+  let prog : Prog := ⟨args, ret, body⟩
+  let rows : List Json := (List.range (2 ^ argBits.length)).map fun k =>
+    match QV.Sem.semProg prog (assignment argBits k) with
+    | some v => Json.str (bitsToString v.bits)
+    | none => Json.null
+  pure (Json.mkObj [("argbits", strsJ argBits), ("rows", Json.arr rows.toArray)])
+
 def handle (op : String) (j : Json) : Option (Except String Json) :=
   match op with
   | "c01.translate" => some (translateOp j)
+  | "c01.semw" => some (semwOp j)
   | "c01.arith" => some (arithOp j)
   | _ => none
 
